@@ -114,7 +114,10 @@ class Translator:
       tags = self.pyeval(kw['tags'])
       return (kw.get('default'), sorted(targets.tag_no(t) for t in tags))
     if f is with_tags_lib.with_tags:
-      tags = [self.pyeval(a) for a in node.args[1:]]
+      tags = []
+      for a in node.args[1:]:
+        t = self.pyeval(a)
+        tags.extend(t if isinstance(t, (list, tuple, set, frozenset)) else [t])
       return (node.args[0], sorted(targets.tag_no(t) for t in tags))
     return None
 
